@@ -190,9 +190,20 @@ def enumerate_to_index(body, log_rules):
     return pat.sub(sub, body)
 
 
+def eta_expand_constructors(body, log_rules):
+    """R-eta: `.map_err(Path::Variant)` -> `.map_err(|verif_e| Path::Variant(verif_e))` (Verus does not support a datatype constructor used
+    as a function value; the eta-expansion is the same function)"""
+    pat = re.compile(r"\.map_err\(((?:\w+::)+[A-Z]\w*)\)")
+    def sub(m):
+        log_rules.add("R-eta `.map_err(Path::Variant)` -> `.map_err(|e| Path::Variant(e))` (eta-expansion; constructors as function values are unsupported)")
+        return ".map_err(|verif_e| %s(verif_e))" % m.group(1)
+    return pat.sub(sub, body)
+
+
 def apply_rules(body, profile, log_rules):
     ctr = [0]
     body = strip_cfg_debug(body, profile, log_rules)
+    body = eta_expand_constructors(body, log_rules)
     body = enumerate_to_index(body, log_rules)
     body = for_continue_to_while(body, log_rules)
 
